@@ -29,6 +29,23 @@ const (
 
 var mediumFaults = []string{fBitFlip, fByteSub, fDup, fDrop, fSwap, fSplice, fTailZero, fTailGarbage, fEmpty, fRandom, fEncInfo, fEncCipher}
 
+// the draw list: single bit flips and substitutions are what storage does most and what reaches the parsers best
+var mediumFaultsWeighted = []string{fBitFlip, fBitFlip, fBitFlip, fBitFlip, fByteSub, fByteSub, fByteSub, fDup, fDup, fDrop, fDrop, fSwap, fSplice, fSplice,
+	fTailZero, fTailGarbage, fEmpty, fRandom, fEncInfo, fEncCipher}
+
+// class draw weights
+var classWeight = map[string]int{cUniform: 1, cTag: 2, cLen: 2, cVarint: 3, cEnum: 3, cKeyID: 2, cTypeURL: 1, cMaterial: 4, cCipher: 1, cBoundary: 1}
+
+func weightedClasses(cs []string) []string {
+	var out []string
+	for _, c := range cs {
+		for i := 0; i < classWeight[c]; i++ {
+			out = append(out, c)
+		}
+	}
+	return out
+}
+
 // applied describes one fault that fired.
 type applied struct {
 	kind   string
@@ -95,7 +112,7 @@ func (w *world) applyFault(kind string, data, other []byte, label string) ([]byt
 		if len(classes) == 0 {
 			return cUniform
 		}
-		return rapid.SampledFrom(classes).Draw(t, label+"Class")
+		return rapid.SampledFrom(weightedClasses(classes)).Draw(t, label+"Class")
 	}
 	switch kind {
 	case fBitFlip, fByteSub:
